@@ -23,7 +23,7 @@ RULE = (
 )
 ASSUMPTIONS = ["reference matcher spans are complete (a set of ends per start)", "rules that can match the empty sequence are excluded (the statement quantifies over non-nullable patterns)"]
 FLOORS = {"overlapping": 0.12, "adjacent": 0.15, "candidates>=2": 0.35}
-TEMPLATES = ["a", "aa", "ab", "aba", "a-or", "a-times", "ab-times", "not-b", "any-ab", "aab", "abab"]
+TEMPLATES = ["a", "aa", "ab", "aba", "a-or", "a-times", "ab-times", "not-b", "any-ab", "aab", "abab", "cap-ii", "cap-op", "a-cap-cap"]
 
 
 def budget(tier):
@@ -56,6 +56,9 @@ def cases(draw):
         "ab-times": [{"$and": [da, db], "times": {"min": 1, "max": 2}}],
         "not-b": [da, {"$not": [db]}],
         "any-ab": [{"$and_any_order": [da, db]}],
+        "cap-ii": ["&i1", "&i1"],
+        "cap-op": [{a[0]: ["&x1"]}, {a[0]: ["&x1"]}] if a[2] else ["&i1", "&i1"],
+        "a-cap-cap": [da, "&i1", "&i1"],
     }[t]
     n = draw(st.integers(4, 16))
     word = draw(st.lists(st.integers(0, k - 1), min_size=n, max_size=n))
@@ -131,8 +134,8 @@ def evaluate(case):
         return ev
     spans = ref.spans(case["pattern"])
     text = render(att_view(L))
-    res = run_all_modes(jasm_io.make_doc(case["pattern"]), text, None, combos=[("list", "all", False), ("list", "first", False)])
-    ev.subcases = 2
+    res = run_all_modes(jasm_io.make_doc(case["pattern"]), text, None, combos=[("list", "all", False), ("list", "first", False), ("list", "all", True), ("list", "first", True)])
+    ev.subcases = 4
     outs = {}
     for key, r in res.items():
         if r[0] == "inconclusive":
@@ -141,9 +144,16 @@ def evaluate(case):
             ev.dev("exception", mode=list(key), error=list(r[1:]))
         else:
             outs[key] = r[1]
-    if len(outs) < 2:
+    if len(outs) < 4:
         return ev
-    check_scan(ev, case["pattern"], NV, outs[("list", "all", False)], outs[("list", "first", False)], spans)
+    rep_spans = check_scan(ev, case["pattern"], NV, outs[("list", "all", False)], outs[("list", "first", False)], spans)
+    if rep_spans is not None and not ev.deviations:
+        # the address-only presentation must be the same scan
+        want = [NV[i][0] for i, _ in rep_spans]
+        if outs[("list", "all", True)] != want:
+            ev.dev("address-only-scan-differs", expected=want[:6], observed=outs[("list", "all", True)][:6])
+        elif outs[("list", "first", True)] != want[:1]:
+            ev.dev("address-only-first-differs", expected=want[:1], observed=outs[("list", "first", True)])
     starts = sorted(spans)
     ev.tags = [f"template={case['template']}"]
     if case["restart"]:
